@@ -261,7 +261,8 @@ type agingDS struct {
 	preRun    chan struct{}   // non-nil: the next ReadChanges blocks *before* reading until closed
 	preAt     chan struct{}   // closed when that ReadChanges has arrived
 	runAtRead chan struct{}   // closed when that ReadChanges has read
-	midRead   func()          // runs once, after the next tuple read has opened its iterator
+	midRead   func()          // runs once, at the first Next/Head of the iterator the next tuple read returns
+	midOpen   func()          // runs once, inside the next tuple read of the datastore
 }
 
 func (d *agingDS) Write(ctx context.Context, store string, del storage.Deletes, wr storage.Writes, opts ...storage.TupleWriteOption) error {
@@ -309,33 +310,58 @@ func (d *agingDS) ReadChanges(ctx context.Context, store string, f storage.ReadC
 	return out, tok, err
 }
 
-func (d *agingDS) opened() {
+// opened: a tuple read reached the datastore and its snapshot is taken.  midOpen fires here, i.e. *inside* the
+// datastore call (before the caching wrapper stamps the iterator); midRead fires at the first Next/Head of the
+// returned iterator, i.e. while the read is in flight.
+func (d *agingDS) opened(it storage.TupleIterator) storage.TupleIterator {
 	d.reads.Add(1)
 	d.mu.Lock()
-	f := d.midRead
-	d.midRead = nil
+	f, g := d.midOpen, d.midRead
+	d.midOpen, d.midRead = nil, nil
 	d.mu.Unlock()
 	if f != nil {
 		f()
 	}
+	if g != nil && it != nil {
+		return &hookIter{TupleIterator: it, first: g}
+	}
+	return it
+}
+
+type hookIter struct {
+	storage.TupleIterator
+	once  sync.Once
+	first func()
+}
+
+func (h *hookIter) Next(ctx context.Context) (*openfgav1.Tuple, error) {
+	h.once.Do(h.first)
+	return h.TupleIterator.Next(ctx)
+}
+
+func (h *hookIter) Head(ctx context.Context) (*openfgav1.Tuple, error) {
+	h.once.Do(h.first)
+	return h.TupleIterator.Head(ctx)
+}
+
+func (h *hookIter) Stop() {
+	h.once.Do(h.first) // a read that is stopped before it is consumed: the write still happens
+	h.TupleIterator.Stop()
 }
 
 func (d *agingDS) Read(ctx context.Context, store string, f storage.ReadFilter, o storage.ReadOptions) (storage.TupleIterator, error) {
 	it, err := d.OpenFGADatastore.Read(ctx, store, f, o)
-	d.opened()
-	return it, err
+	return d.opened(it), err
 }
 
 func (d *agingDS) ReadUsersetTuples(ctx context.Context, store string, f storage.ReadUsersetTuplesFilter, o storage.ReadUsersetTuplesOptions) (storage.TupleIterator, error) {
 	it, err := d.OpenFGADatastore.ReadUsersetTuples(ctx, store, f, o)
-	d.opened()
-	return it, err
+	return d.opened(it), err
 }
 
 func (d *agingDS) ReadStartingWithUser(ctx context.Context, store string, f storage.ReadStartingWithUserFilter, o storage.ReadStartingWithUserOptions) (storage.TupleIterator, error) {
 	it, err := d.OpenFGADatastore.ReadStartingWithUser(ctx, store, f, o)
-	d.opened()
-	return it, err
+	return d.opened(it), err
 }
 
 // ---- the stub engine behind the query cache -------------------------------------------------------------
@@ -553,6 +579,12 @@ func keyClass(k keys.Key) (string, string) {
 
 // read performs one cached read; partial = stop after the first tuple (the rest is drained in the background).
 func (r *rig) read(ki int, lo bool, partial bool, mid func()) string {
+	return r.readX(ki, lo, partial, mid, false, false)
+}
+
+// readX: withRun = the hook also performs an invalidation run (its summary is appended); atOpen = the hook
+// fires inside the datastore call instead of at the first Next.
+func (r *rig) readX(ki int, lo bool, partial bool, mid func(), withRun bool, atOpen bool) string {
 	k := readKeys[ki]
 	rd := r.cdsC
 	if lo {
@@ -562,7 +594,11 @@ func (r *rig) read(ki int, lo bool, partial bool, mid func()) string {
 	before := r.ds.reads.Load()
 	if mid != nil {
 		r.ds.mu.Lock()
-		r.ds.midRead = mid
+		if atOpen {
+			r.ds.midOpen = mid
+		} else {
+			r.ds.midRead = mid
+		}
 		r.ds.mu.Unlock()
 	}
 	ctx := context.Background()
@@ -589,7 +625,10 @@ func (r *rig) read(ki int, lo bool, partial bool, mid func()) string {
 	r.wg.Wait()
 	r.ds.mu.Lock()
 	pendingMid := r.ds.midRead
-	r.ds.midRead = nil
+	if pendingMid == nil {
+		pendingMid = r.ds.midOpen
+	}
+	r.ds.midRead, r.ds.midOpen = nil, nil
 	r.ds.mu.Unlock()
 	if pendingMid != nil {
 		pendingMid() // served from the cache: the datastore was not read, the write happens right after
@@ -599,7 +638,8 @@ func (r *rig) read(ki int, lo bool, partial bool, mid func()) string {
 		hit = "m"
 	}
 	stored, deleted := "n", ""
-	for _, e := range r.cache.take() {
+	evs := r.cache.take()
+	for _, e := range evs {
 		cls, _ := keyClass(e.key)
 		if cls == "iter" && e.op == "set" {
 			stored = fmt.Sprintf("s%d", r.microTicks(e.ttl))
@@ -612,7 +652,15 @@ func (r *rig) read(ki int, lo bool, partial bool, mid func()) string {
 	if partial {
 		res = "p" // a partial read returns a prefix only; its content is not compared
 	}
-	return hit + deleted + ":" + res + ":" + stored
+	out := hit + deleted + ":" + res + ":" + stored
+	if withRun {
+		if rs := r.runSummary(evs, nil); rs != "" {
+			out += rs
+		} else {
+			out += ":R-"
+		}
+	}
+	return out
 }
 
 // query sends one request through the query cache; the question is "does tuple qi exist".
@@ -779,7 +827,7 @@ func (r *rig) runEnd() string {
 // ctl <mode> <reader> iter <n> lo <n> q <n> ctrl <n> jit <pct> page 50
 //     u <nMarkers> <nTuples> { <m1> <m2> } <nReadKeys> { <nDeps> deps… <nMatch> tuple indices… } fill <m1> <m2>
 //     init <n> tuple indices…   ops <k> op…
-// op: adv <d> | wr <i> <a|d> | burst <n> | rd <r> <c|l> <f|p> | rdw <r> <c|l> <i> <a|d> | qc <i> | qcw <i> <a|d>
+// op: adv <d> | wr <i> <a|d> | burst <n> | rd <r> <c|l> <f|p> | rdw/rdwr/rdo <r> <c|l> <i> <a|d> | qc <i> | qcw <i> <a|d>
 //     | run | runb | rune
 
 type opT struct {
@@ -859,8 +907,8 @@ func encode(cfg config, init []int, ops []opT) string {
 			fmt.Fprintf(&sb, " %s %d %s", o.kind, o.a, o.s1)
 		case "rd":
 			fmt.Fprintf(&sb, " rd %d %s %s", o.a, o.s1, o.s2)
-		case "rdw":
-			fmt.Fprintf(&sb, " rdw %d %s %d %s", o.a, o.s1, o.b, o.s2)
+		case "rdw", "rdwr", "rdo":
+			fmt.Fprintf(&sb, " %s %d %s %d %s", o.kind, o.a, o.s1, o.b, o.s2)
 		default:
 			sb.WriteString(" " + o.kind)
 		}
@@ -945,7 +993,7 @@ func decode(line string) (cfg config, init []int, ops []opT) {
 		case "rd":
 			o.a = t.int()
 			o.s1, o.s2 = t.next(), t.next()
-		case "rdw":
+		case "rdw", "rdwr", "rdo":
 			o.a = t.int()
 			o.s1 = t.next()
 			o.b = t.int()
@@ -978,6 +1026,12 @@ func crafted(tier string) []string {
 	add(base, []int{1, 2}, rd(2, "c"), adv(1), wr(2, "d"), adv(9), rd(0, "c"), adv(1), wr(1, "d"), adv(1), run, rd(0, "c"), rd(2, "c"))
 	// population and write while a run is held after its read
 	add(base, []int{1, 2}, rd(0, "c"), adv(1), wr(1, "d"), adv(1), opT{kind: "runb"}, rd(2, "c"), wr(2, "d"), opT{kind: "rune"}, rd(0, "c"), rd(2, "c"), adv(1), run, rd(2, "c"))
+	// a write and a whole invalidation run while a read is in flight: the read must not be cached as valid
+	add(base, []int{1, 2}, opT{kind: "rdwr", a: 0, s1: "c", b: 1, s2: "d"}, rd(0, "c"))
+	add(v2cfg(base), []int{1, 2}, opT{kind: "rdwr", a: 0, s1: "c", b: 1, s2: "d"}, rd(0, "c"))
+	// F6e: the write and the run land inside the datastore call, before the caching wrapper stamps the iterator
+	add(base, []int{1, 2}, opT{kind: "rdo", a: 0, s1: "c", b: 1, s2: "d"}, rd(0, "c"))
+	add(v2cfg(base), []int{1, 2}, opT{kind: "rdo", a: 0, s1: "c", b: 1, s2: "d"}, rd(0, "c"))
 	// query cache: populate, write, run, fresh; the changelog entry outlives the query entry
 	add(base, []int{0}, opT{kind: "qc", a: 0}, adv(1), wr(0, "d"), adv(1), run, opT{kind: "qc", a: 0}, adv(9), opT{kind: "qc", a: 0})
 	// weighted-graph reader
@@ -1009,6 +1063,11 @@ func crafted(tier string) []string {
 		add(rj, []int{1}, rd(0, "c"), adv(1), wr(1, "d"), adv(12), run, rd(0, "c"))
 	}
 	return out
+}
+
+func v2cfg(c config) config {
+	c.reader = "v2"
+	return c
 }
 
 func gen(r *hx.Rand, n int, tier string, emit func(string), st *hx.Stats) {
@@ -1082,7 +1141,12 @@ func gen(r *hx.Rand, n int, tier string, emit func(string), st *hx.Stats) {
 					ad = "d"
 				}
 				present[t] = !present[t]
-				ops = append(ops, opT{kind: "rdw", a: c.Intn(len(readKeys)), s1: "c", b: t, s2: ad})
+				kind := "rdw"
+				if c.Chance(1, 2) {
+					kind = "rdwr"
+					st.Inc("write-and-run-during-read")
+				}
+				ops = append(ops, opT{kind: kind, a: c.Intn(len(readKeys)), s1: "c", b: t, s2: ad})
 				st.Inc("write-during-read")
 			case x < 16:
 				ops = append(ops, opT{kind: "qc", a: c.Intn(len(tuples))})
@@ -1180,6 +1244,15 @@ func exec(line string, st *hx.Stats) string {
 		case "rdw":
 			t, add := tuples[o.b], o.s2 == "a"
 			out = append(out, r.read(o.a, o.s1 == "l", false, func() { r.write(t, add) }))
+		case "rdwr", "rdo":
+			t, add := tuples[o.b], o.s2 == "a"
+			out = append(out, r.readX(o.a, o.s1 == "l", false, func() {
+				r.write(t, add)
+				if r.held == nil {
+					r.ctrl.InvalidateIfNeeded(context.Background(), storeID)
+					r.ctrlWG.Wait()
+				}
+			}, true, o.kind == "rdo"))
 		case "qc":
 			res := r.query(o.a, nil)
 			out = append(out, res)
